@@ -48,11 +48,11 @@ class Verdicts:
         self.nviol = 0
         self.kf = {f["id"]: f for f in run.kf}
 
-    def known(self, fid, detail):
+    def known(self, fid, detail, kind=""):
         f = self.kf.get(fid)
         if f is not None and f.get("status") == "known":
             self.run.known(f, detail)
-            self.run.hist("known_finding", fid)
+            self.run.hist("known_finding", fid + (" in " + kind if kind else ""))
             return True
         return False
 
@@ -96,7 +96,7 @@ def settle(model, V, items):
             fid = {"slot": "C07-F1", "newmid": "C07-F2"}.get(cls)
             if cls == "both" and late_response(it, steps, p2):
                 fid = "C07-F3"
-            if fid and V.known(fid, "%s; case: %s" % (text, it["case"][:160])):
+            if fid and V.known(fid, "%s; case: %s" % (text, it["case"][:160]), it.get("kind", "")):
                 it.setdefault("known", []).append(fid)
                 continue
             bad = (p2, cls, text)
@@ -281,7 +281,7 @@ def main(run):
                             "correspondence: Exchange.ex_cli_run vs libcoap client\ncase: %s\nmodel: %s\nimpl:  %s\n"
                             % (ln, om[i], oc[i]), "tie", no_input=True)
         if honest and steps:
-            items.append({"case": ln, "steps": steps})
+            items.append({"case": ln, "steps": steps, "kind": "exc-" + kind})
     settle(model, V, items)
 
     # ------------------------------------------------------------ exe: whole exchanges
@@ -307,7 +307,7 @@ def main(run):
         f = ln.split()
         cmid0 = int(f[f.index("M") + 1])
         replay.append(G.exc_line([s[0] for s in p["steps"]], mid0=cmid0))
-        items.append({"case": ln, "steps": p["steps"], "parsed": p, "late_ok": True})
+        items.append({"case": ln, "steps": p["steps"], "parsed": p, "kind": "exe-" + kind})
     om, _ = vlib.run_lines_robust(model, replay)
     for i, it in enumerate(items):
         if it is None:
